@@ -14,7 +14,10 @@ RULE = ("(1) exhaustive introspection: every object of pdpy11.insns.instructions
         "(8 modes x 8 registers with rN/sp/pc/%n/@rN/@(rN) spellings, X(rN), @X(rN), #X, @#X, relative, relative deferred, "
         "forward-referenced %sym and X, acN, inline numbers and branch targets at their limits) per operand position, plus forms "
         "that must be refused (%8, ac4/ac5 in a 2-bit field, values beyond 16 bits / the inline field, wrong operand class or count), "
-        "at several link addresses incl. the top of memory; quick tier: each form of each position once with a seeded partner, "
+        "at several link addresses incl. the top of memory; plus a near-miss-name stream (labels/constants whose names start with or contain a "
+        "register/accumulator name -- ac1buf ac10 ac5x ac ac6 r0x r8 r10 spx pcx sp1 xr0, both cases -- used as relative, @relative, #, @#, "
+        "index base and parenthesised operands of CPU and FP11 instructions in every operand position: Spec says ordinary symbol) and a "
+        "`.repeat N { insn }` stream with compound index expressions (a+b(Rn), @a+b(Rn), -a(Rn), ^Cx(Rn)) where every copy is judged; quick tier: each form of each position once with a seeded partner, "
         "thorough tier: full cross product of the canonical spellings for two-operand mnemonics. "
         "Each case carries the implementation's outcome and words; Coq judges correspondence (model = implementation) and the "
         "property (Spec.decode of the implementation's words = Spec.expect of the line, all words consumed; a line without "
@@ -101,6 +104,160 @@ def build_cases(intro, rng, tier, big=False):
     return cases
 
 
+# ------------------------------------------------------------------------------------------------
+# programs of more than one line: the instruction's words are a slice of the image
+class SlicedCase(IC.Case):
+    """instruction at image offset `off`, `ilen` bytes long, image `total` bytes; the rest must be zero"""
+    __slots__ = ("off", "ilen", "total", "kind")
+
+    def term(self):
+        r = self.res
+        if r["outcome"] == "ok":
+            b = bytes.fromhex(r["code"])
+            pad_ok = self.kind.startswith("repeat") or (not any(b[:self.off]) and not any(b[self.off + self.ilen:]))
+            if len(b) == self.total and pad_ok:
+                b = b[self.off:self.off + self.ilen]
+            # otherwise the whole image is judged (wrong length or stray bytes: decode cannot consume exactly)
+            obs = "ObsCrash" if len(b) % 2 else "ObsOk " + C.zlist([b[i] | (b[i + 1] << 8) for i in range(0, len(b), 2)])
+        else:
+            obs = "ObsFail" if r["outcome"] == "failed" else "ObsCrash"
+        return "(%s, %s, %s, %s)" % (C.coq_str(self.m), IC.coq_ops(self.ops), C.zlit(self.addr), obs)
+
+    def key(self):
+        return (self.kind, self.m) + tuple(f.key for f in self.forms) + (self.addr,)
+
+    def describe(self):
+        d = IC.Case.describe(self)
+        d["slice"] = {"off": self.off, "ilen": self.ilen, "total": self.total, "kind": self.kind}
+        return d
+
+
+EXT_CTORS = ("OIndex", "OIndexDef", "OImm", "OAbs", "ORel", "ORelDef")
+
+
+def insn_len(stubs, ops):
+    n = 2
+    for st, o in zip(stubs, ops):
+        if st[0] in ("RegisterModeOperandStub", "FP11RMOperandStub") and o[0] in EXT_CTORS:
+            n += 2
+    return n
+
+
+# names that merely start with / contain a register or accumulator name: ordinary symbols
+NEAR_MISS = ["ac1buf", "ac10", "ac5x", "ac0x", "ac4z", "ac3tmp", "ac", "ac6", "ac7", "r0x", "r8", "r10", "r77", "spx", "pcx", "sp1", "pc0",
+             "xr0", "xac1", "AC1BUF", "Ac2x", "R0X", "SPX", "R8", "AC10"]
+
+
+def near_miss_forms(name, v, r):
+    """memory operands built on the symbol `name` whose value is v"""
+    return [IC.Form(("ORel", v), name, key="nm:rel"), IC.Form(("ORelDef", v), "@" + name, key="nm:@rel"),
+            IC.Form(("OImm", v), "#" + name, key="nm:#"), IC.Form(("OAbs", v), "@#" + name, key="nm:@#"),
+            IC.Form(("OIndex", v, r), "%s(%s)" % (name, IC.REGNAMES[r]), key="nm:X(r)"),
+            IC.Form(("OIndexDef", v, r), "@%s(%s)" % (name, IC.REGNAMES[r]), key="nm:@X(r)"),
+            IC.Form(("ORel", v), "(%s)" % name, key="nm:(rel)"),
+            IC.Form(("ORel", v + 2), name + "+2", key="nm:rel+2")]
+
+
+NEAR_MISS_MNEMONICS = ["clr", "tst", "jmp", "mov", "cmp", "add", "movb", "jsr", "xor", "mul", "ash", "rts", "sob", "emt", "br",
+                       "tstf", "clrd", "absf", "negd", "ldf", "ldd", "addf", "mulf", "cmpf", "cmpd", "divf", "ldcfd", "stf", "std", "stcfd",
+                       "stexp", "stcfi", "ldexp", "ldcif", "ldfps", "push", "pop", "call"]
+
+
+def partner_form(stub, rng, addr):
+    cls = stub[0]
+    if cls == "RegisterOperandStub":
+        return IC.Form(("OReg", 2), "r2")
+    if cls == "FP11AccumulatorOperandStub":
+        n = rng.randrange(4)
+        return IC.Form(("OAcc", n), "ac%d" % n)
+    if cls == "FP11RMOperandStub":
+        return rng.choice([IC.Form(("OAcc", 1), "ac1"), IC.Form(("ORegDef", 3), "(r3)"), IC.Form(("OImm", 7), "#7")])
+    if cls == "RegisterModeOperandStub":
+        return rng.choice([IC.Form(("OReg", 1), "r1"), IC.Form(("OAutoInc", 4), "(r4)+"), IC.Form(("OImm", 9), "#11"), IC.Form(("OIndex", 4, 5), "4(r5)")])
+    if cls == "OffsetOperandStub":
+        return IC.Form(("ORel", addr), ".")
+    return IC.Form(("ORel", 1), "1")
+
+
+def near_miss_cases(intro, rng, tier):
+    by = {n: st for n, _p, st in intro}
+    cases = []
+    for m in NEAR_MISS_MNEMONICS:
+        if m not in by:
+            continue
+        stubs = by[m]
+        for pos in range(len(stubs)):
+            names = NEAR_MISS if tier == "thorough" else rng.sample(NEAR_MISS[:19], 9) + rng.sample(NEAR_MISS[19:], 2)
+            for name in names:
+                r = rng.randrange(7)
+                base = rng.choice([0o1000, 0o400, 0o100000])
+                how = rng.choice(["const-before", "const-after", "label"])
+                pad = rng.choice([2, 4, 10]) if how == "label" else 0
+                addr = base + pad
+                if stubs[pos][0] == "OffsetOperandStub":
+                    v = addr + 2 + rng.choice([-4, 0, 6])
+                    how, pad, addr = "const-after", 0, base
+                elif stubs[pos][0] == "ImmediateOperandStub":
+                    v = rng.randrange(1 << len(stubs[pos][2]))
+                    how, pad, addr = "const-before", 0, base
+                else:
+                    v = base if how == "label" else rng.choice([0o100, 0o1000, 0o177776, 4, 0o2002])
+                forms = near_miss_forms(name, v, r)
+                if tier != "thorough":
+                    forms = [forms[0]] + rng.sample(forms[1:], 3)
+                for f in forms:
+                    fs = [partner_form(st, rng, addr) for st in stubs]
+                    fs[pos] = f
+                    c = SlicedCase(m, fs, addr)
+                    c.kind = "near-miss:" + name
+                    c.off, c.ilen = pad, insn_len(stubs, [x.op for x in fs])
+                    c.total = pad + c.ilen
+                    line = m + " " + ", ".join(x.text for x in fs)
+                    if how == "label":
+                        lines = [".link " + IC.octnum(base), name + ": .blkb " + IC.num(pad), line]
+                    elif how == "const-before":
+                        lines = [".link " + IC.octnum(base), "%s = %s" % (name, IC.octnum(v)), line]
+                    else:
+                        lines = [".link " + IC.octnum(base), line, "%s = %s" % (name, IC.num(v))]
+                    c.src = "\n".join(lines) + "\n"
+                    cases.append(c)
+    return cases
+
+
+# `.repeat 2 { insn }` around compound index expressions: both copies must be the same instruction
+def repeat_cases(intro, rng, tier):
+    by = {n: st for n, _p, st in intro}
+    cases = []
+    a, b, x = 0o100, 6, 5
+    exprs = [("tbl+%o(%s)" % (b, "%s"), "OIndex", a + b), ("@tbl+%o(%s)" % (b, "%s"), "OIndexDef", a + b),
+             ("tbl-2(%s)", "OIndex", a - 2), ("-tbl(%s)", "OIndex", -a), ("@-tbl(%s)", "OIndexDef", -a),
+             ("^Cxx(%s)", "OIndex", -x - 1), ("@^Cxx(%s)", "OIndexDef", -x - 1), ("tbl+xx+2(%s)", "OIndex", a + x + 2),
+             ("-tbl+2(%s)", "OIndex", -a + 2), ("tbl*2+2(%s)", "OIndex", 2 * a + 2), ("tbl(%s)", "OIndex", a)]
+    for m in ["mov", "cmp", "add", "clr", "tst", "jsr", "mul", "ldf", "stf", "tstf", "push", "pop"]:
+        if m not in by:
+            continue
+        stubs = by[m]
+        for pos, st in enumerate(stubs):
+            if st[0] not in ("RegisterModeOperandStub", "FP11RMOperandStub"):
+                continue
+            for text, ctor, val in exprs:
+                r = rng.randrange(8)
+                count = rng.choice([2, 3])
+                base = rng.choice([0o1000, 0o2000])
+                fs = [partner_form(s2, rng, base) for s2 in stubs]
+                fs[pos] = IC.Form((ctor, val, r), text % IC.REGNAMES[r], key="rep:" + text)
+                ilen = insn_len(stubs, [f.op for f in fs])
+                src = ".link %s\ntbl = %o\nxx = %o\n.repeat %d { %s %s }\n" % (IC.octnum(base), a, x, count, m, ", ".join(f.text for f in fs))
+                for k in range(count):
+                    c = SlicedCase(m, fs, base + k * ilen)
+                    c.kind = "repeat:copy%d" % k
+                    c.off, c.ilen, c.total = k * ilen, ilen, count * ilen
+                    c.src = src
+                    cases.append(c)
+    return cases
+
+
+
 def judge_cases(rep, cases, what):
     terms = [c.term() for c in cases]
     shards = C.shard(terms, 500)
@@ -145,7 +302,11 @@ def explore(rep, br, tier, seed):
             rep.disagree("introspection: Instruction object differs from Model.Insns.init_entry", {"name": e[0], "opcode_pattern": e[1], "stubs": e[2]})
     # (2) end to end
     cases = build_cases(intro, rng, tier)
+    main_n = len(cases)
+    cases += near_miss_cases(intro, rng, tier) + repeat_cases(intro, rng, tier)
     IC.run_cases(cases)
+    rep.count("e2e:near-miss-names", sum(1 for c in cases[main_n:] if c.kind.startswith("near")))
+    rep.count("e2e:repeat-wrapped", sum(1 for c in cases[main_n:] if c.kind.startswith("repeat")))
     for c in cases:
         rep.add_eval()
         rep.count("e2e:" + c.res["outcome"])
@@ -169,6 +330,7 @@ def search(rep, br, tier, seed):
     try:
         intro = IC.introspect()
         cases = build_cases(intro, rng, "quick", big=(tier != "thorough"))
+        cases += near_miss_cases(intro, rng, "thorough") + repeat_cases(intro, rng, "thorough")
         IC.run_cases(cases)
         rep.add_eval(len(cases))
         n = judge_cases(rep, cases, "search")
@@ -186,6 +348,10 @@ def replay(data):
     print("source:", inp["files"][0][1].strip().replace("\n", " / "))
     print("now:", {k: r.get(k) for k in ("outcome", "base", "code", "crash")})
     term = "(%s, [%s], %s, %s)" % (C.coq_str(inp["mnemonic"]), "; ".join(inp["operands"]), C.zlit(inp["address"]), IC.coq_obs(r))
+    if "slice" in inp:
+        c = SlicedCase(inp["mnemonic"], [], inp["address"])
+        c.res, c.off, c.ilen, c.total, c.kind = r, inp["slice"]["off"], inp["slice"]["ilen"], inp["slice"]["total"], inp["slice"]["kind"]
+        term = c.term().replace(", [], ", ", [%s], " % "; ".join(inp["operands"]), 1)
     code = C.run_case_files(ID, REQ, PRE, [[term]], judge_expr="map judge cases")[0][0]
     print("judge code:", code, "(bit 0: model differs, bit 1: contradicts Spec)")
     return (code & 2) == 0
